@@ -355,10 +355,13 @@ def run_histories(ctx, binary, hists, which):
             stats["lik_stale_checked"] += 1
             if prev_lik is None:
                 stats["lik_before_first"] += 1
-            if (cur["lik"] is None) != (prev_lik is None) or (cur["lik"] is not None and list(cur["lik"]) != list(prev_lik)):
+            # (an implementation that forgets the old value instead - reports none - still meets C01: recorded only)
+            if cur["lik"] is None and prev_lik is not None:
+                stats["note_likelihood_forgotten_without_correction"] = stats.get("note_likelihood_forgotten_without_correction", 0) + 1
+            elif cur["lik"] is not None and (prev_lik is None or list(cur["lik"]) != list(prev_lik)):
                 if which == "C01":
-                    bad("prop", "likelihood-memory", "getLikelihood() after a step that did not correct differs from what it reported before the step (%s -> %s)" % (
-                        "none" if prev_lik is None else "available", "none" if cur["lik"] is None else "available"))
+                    bad("prop", "likelihood-memory", "getLikelihood() after a step that did not correct reports a value that is not the one of the last completed correction (%s before the step)" % (
+                        "none" if prev_lik is None else "available"))
         else:
             stats["corr_run"] += 1
             d = cd[ci_]
@@ -408,7 +411,7 @@ def run_histories(ctx, binary, hists, which):
                 key = "history-fold-differs"
                 (prop_bad if True else corr_bad).append((key, "filter history, step %d of %d: the belief differs from the exact history recursion started at the initial belief by %.3g (relative)" % (t + 1, len(mo), worst), h["line"], hout[hi]))
                 break
-            if (ms["lik"] is None) != (cur["lik"] is None) and which == "C01":
+            if ms["lik"] is None and cur["lik"] is not None and which == "C01":
                 prop_bad.append(("likelihood-availability", "filter history, step %d: getLikelihood() available = %s, history model: %s" % (t + 1, cur["lik"] is not None, ms["lik"] is not None), h["line"], hout[hi]))
                 break
             if ms["lik"] is not None and cur["lik"] is not None and which == "C01":
